@@ -23,6 +23,13 @@ type Options struct {
 	Self         string // path of this binary (fresh-process replay)
 }
 
+func (o Options) out() string {
+	if o.OutRoot != "" {
+		return o.OutRoot
+	}
+	return o.Root
+}
+
 // ReplayFile is the on-disk form of a minimised failing scenario.
 type ReplayFile struct {
 	Property    string     `json:"property"`
@@ -283,7 +290,7 @@ func minimiseAndWrite(c *Check, p Part, f *Found, o Options, env Env, known []Kn
 		Violation: res.Violation, TraceHash: res.TraceHash, Tape: min, Decisions: res.Tape, Scenario: res.Sample,
 		Events: res.Events, ShrinkRuns: used, OrigLen: len(vals),
 	}
-	dir := filepath.Join(o.Root, "replays")
+	dir := filepath.Join(o.out(), "replays")
 	os.MkdirAll(dir, 0o755)
 	path := filepath.Join(dir, fmt.Sprintf("%s-%s-%d-%d.json", c.Property, p.Name, o.Seed, f.Run))
 	write := func() {
@@ -425,7 +432,7 @@ func writeEvidence(c *Check, o Options, parts []*BatchStats, agg *BatchStats, vi
 	if err != nil {
 		return err
 	}
-	dir := filepath.Join(o.Root, "evidence")
+	dir := filepath.Join(o.out(), "evidence")
 	if err := os.MkdirAll(dir, 0o755); err != nil {
 		return err
 	}
